@@ -235,7 +235,7 @@ func init() {
 	})
 	p.Strata = append(p.Strata, mon.Stratum{
 		Name: "random-hostile-documents",
-		N:    qt(20000, 500000),
+		N:    qt(20000, 2500000),
 		Run: func(c *mon.Ctx, i int) {
 			v := c16Doc(c.R, i)
 			if i%6 >= 2 {
@@ -247,7 +247,7 @@ func init() {
 	p.Strata = append(p.Strata, mon.Stratum{
 		Name: "cli-translate-and-yaml-mode",
 		CLI:  true,
-		N:    qt(250, 8000),
+		N:    qt(250, 40000),
 		Run: func(c *mon.Ctx, i int) {
 			a := c16Doc(c.R, i)
 			aj := ref.ToJSON(a)
